@@ -175,6 +175,15 @@ impl<'a> StateMachine<'a> {
                 self.end_unclosed_merge_conflict()?;
             }
 
+            // A hunk header is still waiting for the first line of its hunk, and this line
+            // cannot be one: another handler may take it, so write the hunk header first.
+            if matches!(self.state, State::HunkHeader(_, _, _, _))
+                && !self.line.is_empty()
+                && !self.line.starts_with([' ', '+', '-', '\\'])
+            {
+                self.emit_pending_hunk_header_line()?;
+            }
+
             // Every method named handle_* must return std::io::Result<bool>.
             // The bool indicates whether the line has been handled by that
             // method (in which case no subsequent handlers are permitted to
@@ -204,6 +213,7 @@ impl<'a> StateMachine<'a> {
         self.line.clear();
         self.flush_submodule_short_minus_commit()?;
         self.end_unclosed_merge_conflict()?;
+        self.emit_pending_hunk_header_line()?;
         self.handle_pending_line_with_diff_name()?;
         self.painter.paint_buffered_minus_and_plus_lines();
         self.painter.emit()?;
